@@ -13,7 +13,7 @@ import ast
 
 from ..core.inline import expand_helpers
 
-from ..core.astutil import assign_pairs, u, call_name, calls, iter_stmts, const, parent_map, ncmp, dot_args, index_elts, guard_chain, resolve_atoms
+from ..core.astutil import assign_pairs, u, call_name, calls, iter_stmts, const, parent_map, ncmp, dot_args, index_elts, guard_chain, resolve_atoms, resolved
 from ..core.index import AnalysisError
 
 J = "distance3d.gjk._gjk_jolt"
@@ -395,3 +395,252 @@ def r_weightrole(idx, rep, rule="R-WEIGHTROLE"):
                               "`%s` is not 1 minus the other two weights %s: the weights do not sum to 1" % (u(st), others), "partition of unity")
     if n < 6:
         rep.error("R-WEIGHTROLE: only %d weight bindings found in get_barycentric_coordinates_plane" % n)
+
+
+# ---------------------------------------------------------------------------------------------------------------------------------
+# R-LINEWEIGHTS: the two-point solver of the Jolt GJK.  get_barycentric_coordinates_line(a, b) -> (u, v) with u a + v b the point of the LINE ab closest to the
+# origin: u + v = 1 and (u a + v b) . (b - a) = 0 as exact identities in the inner products <a,a>, <a,b>, <b,b> (core/bilin.py: rational normal form, nothing is
+# evaluated numerically); on the degenerate branch the weight 1 goes to the end point with the smaller norm.  closest_point_line clamps: a weight <= 0 of one
+# end point returns the OTHER end point with that point's own bit, otherwise the combination u a + v b with both bits.
+def _scalar_paths(fn, alg_factory):
+    """every path through an if-tree of scalar / vector assignments: (conditions [(test, polarity)], Algebra at the return, return node)"""
+    from ..core.bilin import NotAlgebraic
+    out = []
+
+    def walk(stmts, alg, conds):
+        for i, st in enumerate(stmts):
+            if isinstance(st, ast.Expr) and isinstance(st.value, ast.Constant):
+                continue
+            if isinstance(st, ast.Assign):
+                for t, v in assign_pairs(st):
+                    if isinstance(t, ast.Name):
+                        alg.bind(t.id, alg.ev(v))
+                    else:
+                        raise NotAlgebraic("store into `%s`" % u(t)[:30])
+            elif isinstance(st, ast.If):
+                import copy as _c
+                for arm, pol in ((st.body, True), (st.orelse, False)):
+                    a2 = alg_factory()
+                    a2.env = dict(alg.env)
+                    walk(list(arm) + list(stmts[i + 1:]), a2, conds + [(st.test, pol)])
+                return
+            elif isinstance(st, ast.Return):
+                out.append((conds, alg, st))
+                return
+            elif isinstance(st, (ast.Assert, ast.Pass)):
+                continue
+            else:
+                raise NotAlgebraic("statement %s" % type(st).__name__)
+    walk([s for s in fn.body], alg_factory(), [])
+    return out
+
+
+def r_lineweights(idx, rep, rule="R-LINEWEIGHTS"):
+    from ..core.bilin import Algebra, Scalar, NotAlgebraic, p_const, p_add, p_mul
+    rep.rule(rule, "get_barycentric_coordinates_line returns (u, v) with u + v = 1 and (u a + v b).(b - a) = 0 identically in the inner products of a and b (exact "
+                   "rational normal form), the degenerate branch gives weight 1 to the end point of smaller norm; closest_point_line returns the other end point "
+                   "(with its own bit) when a weight is <= 0 and u a + v b with both bits otherwise", floor=4)
+    f = idx.func(J + "::get_barycentric_coordinates_line")
+    pa, pb = f.params()[:2]
+    consts = {k: v for k, v in f.module.const_nodes.items() if isinstance(v, ast.AST)}
+
+    def factory():
+        return Algebra(f.node, [pa, pb], scalars=[k for k in consts])
+    key = f.key + "|"
+    try:
+        paths = _scalar_paths(f.node, factory)
+    except NotAlgebraic as ex:
+        rep.unknown(rule, key + "weights", f.where, "not in the algebraic fragment: %s" % ex)
+        paths = []
+    one, zero = Scalar(p_const(1)), Scalar(p_const(0))
+    n_reg = n_deg = 0
+    for conds, alg, ret in paths:
+        where = "%s:%d" % (f.module.relpath, ret.lineno)
+        try:
+            if not (isinstance(ret.value, ast.Tuple) and len(ret.value.elts) == 2):
+                raise NotAlgebraic("return is not a pair")
+            uu, vv = alg.sca(ret.value.elts[0]), alg.sca(ret.value.elts[1])
+            A, B = alg.ev(ast.Name(id=pa, ctx=ast.Load())), alg.ev(ast.Name(id=pb, ctx=ast.Load()))
+            constant = (uu == one or uu == zero) and (vv == one or vv == zero)
+            if constant:
+                # degenerate branch: which end point is nearer must be on the path
+                n_deg += 1
+                near = None
+                for t, pol in conds:
+                    c = ncmp(t)
+                    if c is None or c[0] not in ("<", "<="):
+                        continue
+                    try:
+                        l, r = alg.sca(c[1]), alg.sca(c[2])
+                    except NotAlgebraic:
+                        continue
+                    aa, bb = alg.dot(A, A), alg.dot(B, B)
+                    if l == aa and r == bb:
+                        near = pa if pol else pb
+                    elif l == bb and r == aa:
+                        near = pb if pol else pa
+                kk = key + "degenerate segment: weight 1 for the nearer end point (%s)" % ("first" if uu == one else "second")
+                if near is None:
+                    rep.unknown(rule, kk, where, "no comparison of the two squared norms on the path")
+                else:
+                    rep.check((uu == one) == (near == pa) and (uu == one) != (vv == one), rule, kk, where,
+                              "on the path where `%s` is the end point nearer to the origin the weights are (%s, %s): the weight 1 belongs to that point"
+                              % (near, "1" if uu == one else "0", "1" if vv == one else "0"))
+                continue
+            n_reg += 1
+            s1 = Scalar(p_add(p_mul(uu.num, vv.den), p_mul(vv.num, uu.den)), p_mul(uu.den, vv.den))
+            AB = alg.ev(ast.BinOp(left=ast.Name(id=pb, ctx=ast.Load()), op=ast.Sub(), right=ast.Name(id=pa, ctx=ast.Load())))
+            da, db = alg.dot(A, AB), alg.dot(B, AB)
+            # u * <a, ab> + v * <b, ab>
+            t1 = Scalar(p_mul(uu.num, da.num), uu.den)
+            t2 = Scalar(p_mul(vv.num, db.num), vv.den)
+            orth = Scalar(p_add(p_mul(t1.num, t2.den), p_mul(t2.num, t1.den)), p_mul(t1.den, t2.den))
+            rep.check(s1 == one, rule, key + "u + v = 1", where, "the weights returned at line %d sum to %r, not to 1: u a + v b is not a point of the line" % (ret.lineno, s1))
+            rep.check(orth == zero, rule, key + "(u a + v b) . (b - a) = 0", where,
+                      "with the weights returned at line %d, (u a + v b).(b - a) = %r: the combination is not the point of the line closest to the origin "
+                      "(sign or operand of the projection `-a.(b - a) / |b - a|^2` changed)" % (ret.lineno, orth))
+        except NotAlgebraic as ex:
+            rep.unknown(rule, key + "weights at line %d" % ret.lineno, where, "not in the algebraic fragment: %s" % ex)
+    if paths and (n_reg == 0 or n_deg == 0):
+        rep.unknown(rule, key + "regular and degenerate branch", f.where, "expected a projection branch and a degenerate branch (found %d / %d)" % (n_reg, n_deg))
+    # --- closest_point_line
+    g = idx.func(J + "::closest_point_line")
+    ga, gb = g.params()[:2]
+    pm = parent_map(g.node)
+    wsrc = [st for st in iter_stmts(g.node.body) if isinstance(st, ast.Assign) and isinstance(st.value, ast.Call) and (call_name(st.value) or "").endswith("get_barycentric_coordinates_line")]
+    gk = g.key + "|"
+    if len(wsrc) != 1 or not isinstance(wsrc[0].targets[0], ast.Tuple) or [u(a_) for a_ in wsrc[0].value.args] not in ([ga, gb], [gb, ga]):
+        rep.unknown(rule, gk + "weights", g.where, "the weights are not taken from one call get_barycentric_coordinates_line(a, b)")
+        return
+    wn = [u(x) for x in wsrc[0].targets[0].elts]
+    order = [u(a_) for a_ in wsrc[0].value.args]
+    weight_of = {order[0]: wn[0], order[1]: wn[1]}      # point -> name of its weight
+    bit = {ga: 1, gb: 2}
+    for ret in [st for st in iter_stmts(g.node.body) if isinstance(st, ast.Return)]:
+        where = "%s:%d" % (g.module.relpath, ret.lineno)
+        if not (isinstance(ret.value, ast.Tuple) and len(ret.value.elts) == 2):
+            rep.unknown(rule, gk + "return at line %d" % ret.lineno, where, "not (point, mask)")
+            continue
+        pt, mask = ret.value.elts
+        mval = const(mask)
+        atoms = resolve_atoms(g.node, guard_chain(pm, ret, g.node))
+        nonpos = set()       # weights known <= 0 on this path
+        pos = set()
+        for t, pol in atoms:
+            c = ncmp(t)
+            if c is None:
+                continue
+            op, l, r = c
+            if isinstance(l, ast.Name) and const(r) in (0, 0.0) and l.id in wn:
+                if (op == "<=" and pol) or (op == ">" and not pol):
+                    nonpos.add(l.id)
+                if (op == "<=" and not pol) or (op == ">" and pol):
+                    pos.add(l.id)
+        ptn = resolved(g.node, pt) if isinstance(pt, ast.Name) and pt.id not in (ga, gb) else pt
+        if isinstance(ptn, ast.Name) and ptn.id in (ga, gb):
+            other = gb if ptn.id == ga else ga
+            rep.check(weight_of[other] in nonpos and mval == bit[ptn.id], rule, gk + "end point %s" % ("first" if ptn.id == ga else "second"), where,
+                      "`%s` is returned with mask %s on a path where %s: an end point is the answer exactly when the weight of the OTHER end point (%s) is <= 0, "
+                      "and it carries its own bit %d" % (ptn.id, bin(mval) if isinstance(mval, int) else u(mask), "the weights known <= 0 are %s" % sorted(nonpos), weight_of[other], bit[ptn.id]))
+        else:
+            try:
+                alg = Algebra(g.node, [ga, gb], scalars=wn)
+                v = alg.vec(ptn)
+                ok = set(v.terms) == {ga, gb} and v.terms[ga] == {(weight_of[ga],): 1} and v.terms[gb] == {(weight_of[gb],): 1}
+            except NotAlgebraic:
+                ok = None
+            kk = gk + "interior point"
+            if ok is None:
+                rep.unknown(rule, kk, where, "`%s` is not a linear combination of the end points" % u(ptn)[:60])
+            else:
+                rep.check(ok and mval == 3 and {weight_of[ga], weight_of[gb]} <= pos, rule, kk, where,
+                          "the interior answer is `%s` with mask %s under %s: it must be (weight of a) * a + (weight of b) * b with both bits, reached only when both "
+                          "weights are > 0" % (u(ptn)[:60], bin(mval) if isinstance(mval, int) else u(mask), sorted(pos)))
+
+
+
+def r_windingdecision(idx, rep, rule="R-PLANES"):
+    """last step of origin_outside_of_tetrahedron_planes: ONE winding sign decides all four faces — all reference values > 0: outside iff signp >= -eps; all < 0:
+    outside iff signp <= eps; anything else (a zero or mixed signs: the four points are numerically coplanar): every face counts as outside, i.e. all four
+    faces are solved.  Decided by evaluating the statements after the two sign vectors on all 81 sign patterns of the reference values and a set of plane
+    values around +-eps (finite abstraction of the order types; this module's evaluator, nothing of the repository runs)."""
+    import itertools
+    from .aabbtree import _num_eval, _NotModelled
+    f = idx.func(J + "::origin_outside_of_tetrahedron_planes")
+    body = [st for st in f.node.body if not (isinstance(st, ast.Expr) and isinstance(st.value, ast.Constant))]
+    arrs = [(i, st) for i, st in enumerate(body) if isinstance(st, ast.Assign) and isinstance(st.targets[0], ast.Name) and isinstance(st.value, ast.Call)
+            and call_name(st.value) == "np.array" and st.value.args and isinstance(st.value.args[0], ast.List) and len(st.value.args[0].elts) == 4]
+    key = f.key + "|one winding sign decides all four faces; mixed or zero signs test every face"
+    if len(arrs) != 2:
+        rep.unknown(rule, key, f.where, "the two 4-vectors (plane values, reference values) were not found")
+        return
+    (i0, s0), (i1, s1) = arrs
+    # which is which: the reference vector is the one compared as a whole (np.all(. > 0)) — try both assignments of roles, exactly one must satisfy the contract
+    tail = body[max(i0, i1) + 1:]
+    names = (s0.targets[0].id, s1.targets[0].id)
+
+    class _Ret(Exception):
+        def __init__(self, v):
+            self.v = v
+
+    def run(stmts, env):
+        for st in stmts:
+            if isinstance(st, ast.Assign) and isinstance(st.targets[0], ast.Name):
+                env[st.targets[0].id] = _num_eval(st.value, env)
+            elif isinstance(st, ast.If):
+                t = _num_eval(st.test, env)
+                if isinstance(t, list):
+                    raise _NotModelled("truth value of an array")
+                run(st.body if t else st.orelse, env)
+            elif isinstance(st, ast.Return):
+                raise _Ret(_num_eval(st.value, env))
+            elif isinstance(st, (ast.Pass, ast.Assert)):
+                continue
+            else:
+                raise _NotModelled("statement %s" % type(st).__name__)
+    EPS = 0.5
+    consts = {"EPSILON": EPS, "True": True, "False": False}
+    for k, v in f.module.const_nodes.items():
+        if isinstance(v, ast.Call) and "ones" in (call_name(v) or "") or (isinstance(v, ast.Call) and call_name(v) == "np.array" and v.args and isinstance(v.args[0], ast.List)
+                                                                           and all(const(x) is True for x in v.args[0].elts)):
+            consts[k] = [True] * 4
+    pvals = [(-1, -0.25, 0, 0.25), (1, 0.25, 0, -0.25), (-0.25, 1, -1, 0), (0.5, -0.5, 0.75, -0.75)]
+    verdicts = {}
+    try:
+        for role in (0, 1):
+            pname, dname = names[role], names[1 - role]
+            bad = None
+            for sd in itertools.product((-1, 0, 1), repeat=4):
+                for sp in pvals:
+                    env = dict(consts)
+                    env[pname], env[dname] = list(sp), list(sd)
+                    try:
+                        run(tail, env)
+                        got = None
+                    except _Ret as r:
+                        got = r.v
+                    got = [bool(x) for x in got] if isinstance(got, list) else got
+                    if all(x > 0 for x in sd):
+                        want = [x >= -EPS for x in sp]
+                    elif all(x < 0 for x in sd):
+                        want = [x <= EPS for x in sp]
+                    else:
+                        want = [True] * 4
+                    if got != want:
+                        bad = (sd, sp, got, want)
+                        break
+                if bad:
+                    break
+            verdicts[role] = bad
+    except _NotModelled as ex:
+        rep.unknown(rule, key, f.where, "the decision after the sign vectors could not be evaluated: %s" % ex)
+        return
+    if verdicts[0] is None or verdicts[1] is None:
+        rep.ok(rule, key, f.where, "81 sign patterns x %d plane-value vectors" % len(pvals))
+    else:
+        # report with the roles the function's own names suggest (reference vector = the second 4-vector of the pinned code)
+        sd, sp, got, want = verdicts[0] if "d" in names[1] else verdicts[1]
+        rep.bad(rule, key, "%s:%d" % (f.module.relpath, tail[0].lineno if tail else f.node.lineno),
+                "for reference values with signs %s and plane values %s (eps = %s) the function answers %s; Jolt's rule gives %s: the faces are judged by ONE common "
+                "winding sign, and when the four reference values do not agree in sign (numerically coplanar points) every face is reported outside so that all four "
+                "faces are solved — a per-face sign lets a flat tetrahedron come out as 'origin inside'" % (list(sd), list(sp), EPS, got, want))
